@@ -821,7 +821,11 @@ class VMF:
             Cordon.parse(map_obj, ent)
 
         map_spawn = tree.find_block('world', or_blank=True)
-        map_obj.spawn = worldspawn = Entity.parse(map_obj, map_spawn, _worldspawn=True)
+        worldspawn = Entity.parse(map_obj, map_spawn, _worldspawn=True)
+        # The placeholder worldspawn made by the constructor is replaced, take it out of the lookup tables.
+        _remove_copyset(map_obj.by_class, 'worldspawn', map_obj.spawn)
+        _remove_copyset(map_obj.by_target, None, map_obj.spawn)
+        map_obj.spawn = worldspawn
         # Ensure the correct classname, which adds to by_class as a side effect. It is possible
         # to name worldspawn, kinda pointless though.
         worldspawn['classname'] = 'worldspawn'
